@@ -299,12 +299,12 @@ fn sched_exec(h: &SHarness, prefix: &[usize]) -> (sched::Execution, Result<Strin
 pub fn sharnesses(tier: Tier) -> Vec<(SHarness, usize)> {
     match tier {
         Tier::Quick => vec![
-            (SHarness { threads: 2, per_thread: 2, size: 24, chunks: 2 }, 2),
-            (SHarness { threads: 2, per_thread: 1, size: 1500, chunks: 3 }, 2),
+            (SHarness { threads: 2, per_thread: 2, size: 24, chunks: 2 }, 3),
+            (SHarness { threads: 2, per_thread: 1, size: 1500, chunks: 3 }, 3),
             (SHarness { threads: 3, per_thread: 1, size: 24, chunks: 2 }, 2),
         ],
         Tier::Thorough => vec![
-            (SHarness { threads: 2, per_thread: 2, size: 24, chunks: 2 }, 3),
+            (SHarness { threads: 2, per_thread: 2, size: 24, chunks: 2 }, 4),
             (SHarness { threads: 2, per_thread: 2, size: 1500, chunks: 3 }, 3),
             (SHarness { threads: 3, per_thread: 1, size: 24, chunks: 3 }, 3),
             (SHarness { threads: 3, per_thread: 2, size: 1100, chunks: 2 }, 2),
@@ -321,7 +321,7 @@ pub fn run(ctx: &Ctx) -> Report {
          operation and between the encoder's chunks, all schedules up to the preemption bound; after each returned append the record must already be readable; the final file must be whole records, each once, \
          per-thread order kept",
     );
-    let depth = ctx.tier.pick(4, 6);
+    let depth = ctx.tier.pick(5, 6);
     let mut notes = vec![];
     let mut complete = true;
     for w in fworlds(ctx.tier) {
